@@ -657,6 +657,8 @@ package impl
 //@   atomic counter -- only ever the operand of sync/atomic
 //@ func impl.newTimeCounter {C18}
 //@   ensures [starts-at-clock] result != nil && only(Now)
+//@   ensures [nanosecond-seed] (*result).counter == unixnano(now(0)) % 18446744073709551616
+//@       -- the first id of a manager is the wall clock in nanoseconds: with ids drawn slower than one per nanosecond a later manager starts above an earlier one's ids
 
 // remaining implementations of interface methods with a declared lock effect (C20): thin contracts (memory safety, lock effects)
 //@ func (*impl.receiver).ReceiveRequest {C20}
